@@ -58,6 +58,7 @@ type c09Deposit struct {
 	hookFail bool // valid recipient, but the deposit carries an undecodable hook: minted, reclaimed, burnt, refunded
 }
 type c09Send struct{}
+type c09Restart struct{}
 type c09Withdraw struct {
 	by    string
 	amt   int64
@@ -102,6 +103,7 @@ func (c09Sys) Letters(s *c09State) []engine.Letter {
 		ls = append(ls, engine.Letter{Name: fmt.Sprintf("Deposit(validRecipient=true,hook=failing,%dl2x,base=uxx)", amt), Data: c09Deposit{true, amt, c09L2x, "uxx", true}})
 	}
 	ls = append(ls, engine.Letter{Name: "Send(alice->bob,1l2x)", Data: c09Send{}})
+	ls = append(ls, engine.Letter{Name: "RestartViaGenesis", Data: c09Restart{}})
 	for _, by := range c09Accts {
 		for _, den := range []string{c09L2x, c09Native, c09Unknown} {
 			b := s.bal[by+"/"+den]
@@ -129,6 +131,11 @@ func (c09Sys) Step(s *c09State, l engine.Letter) (*c09State, string, *engine.Vio
 	c := s.clone(ctx)
 	before := s.w.Digest(s.ctx)
 	switch d := l.Data.(type) {
+	case c09Restart:
+		if err := s.w.RestartViaGenesis(ctx); err != nil {
+			return c, "error", viol("sequences-and-denom-pairs-survive-a-restart", "export / validate / import of the module genesis failed: %v", err)
+		}
+		return c, "ok", nil
 	case c09Send:
 		res := s.w.Deliver(ctx, banktypes.NewMsgSend(world.Addr("alice"), world.Addr("bob"), sdk.NewCoins(sdk.NewInt64Coin(c09L2x, 1))))
 		if res.OK() {
